@@ -9,6 +9,7 @@ import (
 	"errors"
 	"net"
 	"sync"
+	"time"
 
 	"github.com/veesix-networks/osvbng/pkg/allocator"
 	"github.com/veesix-networks/osvbng/pkg/component"
@@ -38,6 +39,14 @@ type Component struct {
 	// Tunnels indexed by (peer_ip, local_tunnel_id) — incoming-packet
 	// lookup key. Lookup is on the hot path; reads are RLocked.
 	tunnels map[tunnelKey]*Tunnel
+
+	// closedConns remembers, for one retransmission cycle, the control
+	// connections (peer address + the peer's Assigned Tunnel ID) whose
+	// responder tunnel has been torn down. RFC 2661 §5.7: state is kept
+	// that long so that late copies of the peer's messages are recognised;
+	// here it keeps a delayed duplicate of the SCCRQ from opening a ghost
+	// tunnel after the real one is gone. Guarded by mu.
+	closedConns map[tunnelKey]time.Time
 
 	// Per-tunnel runners (control-channel tick + Hello scheduling).
 	runners map[tunnelKey]*tunnelRunner
@@ -310,8 +319,34 @@ func (c *Component) unregisterTunnel(peerIP net.IP, localID uint16) *Tunnel {
 	c.mu.Lock()
 	t := c.tunnels[k]
 	delete(c.tunnels, k)
+	if t != nil && t.Role == l2tppkt.RoleResponder {
+		now := time.Now()
+		if c.closedConns == nil {
+			c.closedConns = make(map[tunnelKey]time.Time)
+		}
+		for ck, at := range c.closedConns {
+			if now.Sub(at) > closedConnLinger {
+				delete(c.closedConns, ck)
+			}
+		}
+		c.closedConns[makeTunnelKey(t.PeerIP, t.PeerID)] = now
+	}
 	c.mu.Unlock()
 	return t
+}
+
+// closedConnLinger is how long a torn-down control connection is
+// remembered: a full retransmission cycle of the peer with the RFC 2661
+// defaults (1+2+4+8+8 s) plus the maximum retransmit interval.
+const closedConnLinger = 31 * time.Second
+
+// recentlyClosedConn reports whether the peer's control connection with
+// this Assigned Tunnel ID was torn down less than closedConnLinger ago.
+func (c *Component) recentlyClosedConn(peerIP net.IP, peerTunnelID uint16) bool {
+	c.mu.RLock()
+	at, ok := c.closedConns[makeTunnelKey(peerIP, peerTunnelID)]
+	c.mu.RUnlock()
+	return ok && time.Since(at) <= closedConnLinger
 }
 
 // allocateTunnelID returns a fresh local Tunnel-ID scoped to the given
